@@ -18,6 +18,18 @@ CHECKS = {
              'pump liveness and cleanup invariants. Sampling of a large schedule space, not exhaustive.',
         note='Trusts CPython asyncio Task/Future/wait, the FIFO ready-queue assumption, and the fake ASGI server '
              '(queue-like receive). Strict bound N is a recorded known finding; N+1 is enforced.'),
+    'C17': dict(
+        level='exploration', ref='DESIGN.md section 4 (C17)',
+        technique=TECH + 'seeded search over responder scripts x client scripts x send-failure points x schedules '
+                  'on a custom asyncio loop; independent ASGI WebSocket protocol monitor + (state, op) error model + close-code model',
+        text='Seeded exploration: real falcon.asgi.App WebSocket path (routing, ws middleware, error handlers, '
+             'WebSocket state machine) driven by generated responder scripts (incl. misuse) against a fake ASGI server '
+             'written from the spec; every outgoing event is checked by an independent protocol monitor, every '
+             'operation outcome against a documented (state, op) -> error model, the final close obligation and close '
+             'code against a reference. Send failures are injected at chosen send indices. Sampling, not exhaustive.',
+        note='Trusts the fake ASGI server/monitor as a reading of ASGI WebSocket spec 2.0-2.4 and the harness model of the '
+             'documented errors; when several error conditions hold at once any documented error is accepted; after an '
+             'injected send failure only the monitor and send-after-lost oracles remain in force.'),
 }
 
 NOT_YET = {p: 'claimed in DESIGN.md; check under construction in this round (not yet registered)' for p in
